@@ -73,7 +73,7 @@ def run(ctx, spec):
         X = [rep_of(None, i) for i in gen.ID_REPS]
         Y = rep_of(b, rb)
     else:
-        X = [rep_of(a, ra), rep_of(a, rng.choice(gen.REPS)), rep_of(a, 'scaled')]
+        X = [rep_of(a, ra), rep_of(a, rng.choice(gen.REPS)), rep_of(a, rng.choice(['scaled', 'setters']))]
         Y = rep_of(b, rb)
         # the lambda = -1 representative (x, -y, -1) of X: same point, although y differs in sign
         P = rm.gmul(which, a)
@@ -117,6 +117,14 @@ def run(ctx, spec):
             exp[i] = ('%s.affine.xy' % g, 'ok ' + F.enc(Pv[0]), True)
             i = pr.emit('_', g + '.aff.y', a_)
             exp[i] = ('%s.affine.xy' % g, 'ok ' + F.enc(Pv[1]), True)
+            if rng.random() < 0.3:
+                # AffineG*::set_x / set_y: overwrite the coordinates of another affine value with those of this point
+                o_ = pr.let(g + '.aff.from_jacobian', pr.let(g + '.one')[0])[0]
+                o_ = pr.let(g + '.aff.set_x', o_, F.enc(Pv[0]))[0]
+                o_, i = pr.let(g + '.aff.set_y', o_, F.enc(Pv[1]))
+                exp[i] = ('%s.affine.setters' % g, 'ok ' + F.enc(Pv[0]) + F.enc(Pv[1]), True)
+                i = pr.emit('_', g + '.aff.eq', o_, a_)
+                exp[i] = ('%s.affine.eq' % g, 'bool true', True)
             b_, i = pr.let(g + '.aff.to_g', a_)
             exp[i] = ('%s.from_affine' % g, 'ok ' + rm.jac_lit(F, Pv), True)
             vals[b_] = Pv
